@@ -226,7 +226,7 @@ func genLen(r *Rng, tier string) int {
 		return 129
 	case 4:
 		if tier == "thorough" {
-			return r.Pick(16383, 16384, 16385, 20000)
+			return r.Pick(200, 300, 1000, 2000, 4097)
 		}
 		return r.Pick(200, 300)
 	default:
